@@ -127,3 +127,57 @@ Theorem stale_invariant :
   (v = slot_ver s sl /\ reachplus (s_nodes s) (slot_res s sl) c).
 Proof. intros k progs s c sl v R Hin. exact (proj1 (reachable_stale k progs s R) c sl v Hin). Qed.
 Print Assumptions stale_invariant.
+
+From Thunder Require Import Reactive.ProofsOut.
+
+(** The same, about what was actually published: [r_out] is the value the compute function had returned when
+    the publish step ran (the harness compares it with the real return value at every publish event). *)
+Theorem published_output_is_current :
+  forall k progs s r, reachable (init k progs) s -> quiescent s -> r < length (s_rrs s) ->
+  r_cancel (getr s r) = false -> r_failed (getr s r) = false ->
+  exists out, r_out (getr s r) = Some out /\ forall sl v, In (sl, v) out -> v = slot_ver s sl.
+Proof.
+  intros k progs s r R Q Hr X1 X2.
+  destruct (no_lost_invalidation_lemma _ _ _ _ R Q Hr X1 X2) as [c [E1 E2]].
+  destruct (reachable_out _ _ _ R r c E1) as [v [ext [O1 O2]]].
+  exists v. split; [exact O1|]. intros sl x Hin. apply E2. unfold getN. rewrite O2. apply in_app_iff. left. exact Hin.
+Qed.
+Print Assumptions published_output_is_current.
+
+(** Progress, the part that is proved: a task can only be blocked on r.mu (the labels RunLock and StopMark are
+    the only ones with a blocking enabling condition besides guards that name existing nodes), and whenever
+    r.mu is held some task stands inside the critical section of Rerunner.run, i.e. holds a frame between
+    Lock and the deferred Unlock.
+
+    FULL STATEMENT (not proved): forall reachable s, s_tasks s <> [] -> exists l s', step s l = Some s'
+    (given that compute scripts are finite).  What is missing is the stack-shape invariant saying that the
+    frames above such a holder frame are compute-script frames, all of whose labels are enabled, and that
+    node ids in frames always name existing nodes. *)
+Theorem progress_mutex_holder_partial :
+  forall k progs s r, reachable (init k progs) s -> r < length (s_rrs s) ->
+  r_mu (getr s r) = true -> exists f, In f (all_frames s) /\ anchor r f = true.
+Proof.
+  intros k progs s r R Hr Mu. destruct (reachable_mutex _ _ _ R r Hr) as [H _].
+  unfold getr in Mu. rewrite Mu in H. simpl in H.
+  induction (all_frames s) as [|f t IH]; simpl in H; [discriminate|].
+  destruct (anchor r f) eqn:A; [exists f; split; [left; reflexivity | exact A]|].
+  destruct (IH H) as [g [G1 G2]]. exists g. split; [right; exact G1 | exact G2].
+Qed.
+Print Assumptions progress_mutex_holder_partial.
+
+From Thunder Require Import Reactive.Drive.
+
+(** non-vacuity of the quiescence theorems: two rerunners sharing slot 0 (one through a cached child, one with a
+    non-spawning handler); run to quiescence, Strobe, run, Invalidate, run: the state is quiescent, nobody is
+    cancelled or failed, and both published outputs carry version 2. *)
+Definition ex_progs : list (list op * bool) := [([OCache 0 [ODep 0]; ODep 0], true); ([ODep 0], false)].
+Definition ex_q : state :=
+  let s1 := run_to_quiet 300 (init 1 ex_progs) in
+  let s2 := match step s1 (LStrobe 0) with Some s => run_to_quiet 300 s | None => s1 end in
+  match step s2 (LInvalidate 0) with Some s => run_to_quiet 400 s | None => s2 end.
+
+Example ex_q_facts :
+  quiescent ex_q /\ slot_ver ex_q 0 = 2 /\
+  r_cancel (getr ex_q 0) = false /\ r_failed (getr ex_q 0) = false /\ r_cancel (getr ex_q 1) = false /\
+  r_out (getr ex_q 0) = Some [(0, 2); (0, 2)] /\ r_out (getr ex_q 1) = Some [(0, 2)] /\ r_runs (getr ex_q 0) = 3.
+Proof. vm_compute. repeat split. Qed.
